@@ -230,6 +230,7 @@ class GOb(Obligation):
             G.reset_execution()
             rng = np.random.RandomState(seed)
             S = NumNS(env, rng)
+            S.scale = {1: 0.05, 3: 0.2, 4: 20.0}.get(seed, 1.0)
             I = concretize_args(self.setup(S), env)
             I0 = copy.deepcopy(I)  # the spec is evaluated on the inputs as they were before the call
             try:
@@ -251,7 +252,7 @@ class GOb(Obligation):
     def _concretize(self, path, why):
         tried = []
         for env in self._envs(path):
-            for seed in (int(os.environ.get("VERIF_SEED", "0") or 0), 1, 2):
+            for seed in (int(os.environ.get("VERIF_SEED", "0") or 0), 1, 2, 3, 4, 5):
                 try:
                     ok, info = self.native(env, seed)
                 except Exception as e:  # harness problem: report, do not claim
